@@ -82,7 +82,14 @@ class BayesianBridge(CallableModel):
             return -global_scale.log() - (self.x.tensor.abs() / global_scale) ** alpha
 
     def _sample_shape(self) -> Size:
-        return self.x.tensor.shape[:-1]
+        parameters = (self.x, self.scale, self.alpha, self.local_scale, self.slab)
+        return torch.broadcast_shapes(
+            *[
+                getattr(p, 'tensor', p).shape[:-1]
+                for p in parameters
+                if isinstance(p, (AbstractParameter, Tensor))
+            ]
+        )
 
     def handle_model_changed(self, model, obj, index) -> None:
         pass
